@@ -92,7 +92,7 @@ type histCase struct {
 	Ops []Op
 }
 
-var names = []string{"a", "b", "my config", "ünï", "x&y=z", "<b>", "a", "c", "A", "My Config", "ÜNÏ", "a/b"}
+var names = []string{"a", "b", "my config", "ünï", "x&y=z", "<b>", "a", "c", "A", "My Config", "ÜNÏ", "a/b", "cpu+alloc", "cpu alloc", "top%20ten", "top ten", "50%", "a%2Fb"}
 
 var valuePool = map[string][]string{
 	"bool": {"t", "f", "true", "false", "1", "0", "yes", "", "y"}, "int": {"-1", "0", "5", "80", ""}, "float": {"0", "0.005", "0.1", "1", "0.001", "", "0.0123456789", "0.3333333333333333", "1e-9", "0.10000000149011612"},
@@ -472,10 +472,11 @@ type crashCase struct {
 	Save   Op
 	Ignore bool  // SIGXFSZ ignored: the write fails; otherwise the process is killed mid-write
 	Sample []int // sampled positions when the new file is larger than 600 bytes
+	Link   bool  // settings.json is a symbolic link to a file next to it (a dotfiles checkout)
 }
 
 func genCrash(t *rapid.T) *crashCase {
-	c := &crashCase{Ignore: rapid.Bool().Draw(t, "ignore")}
+	c := &crashCase{Ignore: rapid.Bool().Draw(t, "ignore"), Link: rapid.IntRange(0, 3).Draw(t, "symlink") == 0}
 	n := rapid.IntRange(0, 3).Draw(t, "nbefore")
 	for i := 0; i < n; i++ {
 		c.Before = append(c.Before, Op{Name: rapid.SampledFrom(names).Draw(t, "bname"), Params: genValidParams(t)})
@@ -538,12 +539,20 @@ func checkCrash(c *crashCase, o *vk.Obs) []string {
 	}
 	newb, _ := os.ReadFile(settingsPath())
 	restore := func() {
+		os.Remove(settingsPath())
 		if old == nil {
-			os.Remove(settingsPath())
-		} else {
-			os.WriteFile(settingsPath(), old, 0o644)
+			return
 		}
+		if c.Link {
+			// the configuration lives in another file; settings.json is a link to it
+			target := filepath.Join(filepath.Dir(settingsPath()), "settings.real.json")
+			os.WriteFile(target, old, 0o644)
+			os.Symlink("settings.real.json", settingsPath())
+			return
+		}
+		os.WriteFile(settingsPath(), old, 0o644)
 	}
+	o.LabelIf(c.Link && old != nil, "symlinked-settings")
 	var positions []int
 	if len(newb) <= 320 {
 		for k := 0; k < len(newb); k++ {
@@ -622,9 +631,15 @@ func checkSyscall(c *crashCase, o *vk.Obs) []string {
 		os.RemoveAll(dir)
 		if old != nil {
 			os.MkdirAll(dir, 0o755)
+			if c.Link {
+				os.WriteFile(filepath.Join(dir, "settings.real.json"), old, 0o644)
+				os.Symlink("settings.real.json", settingsPath())
+				return
+			}
 			os.WriteFile(settingsPath(), old, 0o644)
 		}
 	}
+	o.LabelIf(c.Link && old != nil, "symlinked-settings")
 	o.NonTrivial = len(old) > 0
 	killed := 0
 	// strace counts invocations per system call: enumerate (call, k) pairs
